@@ -20,7 +20,7 @@ ID = 'C15'
 
 BOUNDS = {
     'quick': dict(N=2, NP=1, NFULL=1),
-    'thorough': dict(N=3, NP=2, NFULL=2),
+    'thorough': dict(N=2, NP=2, NFULL=2),
 }
 
 GAP_ANY = ['  ', '\t', ' \t ']
